@@ -7,5 +7,7 @@ import TsVerif.C16.Props
 #print axioms TsVerif.C16.conforms_iff
 #print axioms TsVerif.C16.allowed_iff_reach
 #print axioms TsVerif.C16.closure_always_converges
+#print axioms TsVerif.C16.derive_sound_partial
+#print axioms TsVerif.C16.derive_entry_fields_partial
 #print axioms TsVerif.C16.name_roundtrip
 #print axioms TsVerif.C16.field_roundtrip
